@@ -123,7 +123,7 @@ CHECKS = {
     ),
     'C16': dict(
         level='exploration',
-        batches=[dict(scenario='c16params', flavour='P', quick=40000, thorough=1500000), dict(scenario='c16params', flavour='A', quick=4000, thorough=80000)],
+        batches=[dict(scenario='c16params', flavour='P', quick=12000, thorough=600000), dict(scenario='c16params', flavour='A', quick=2000, thorough=60000)],
         rule='histories of 4-30 (thorough 4-60) ops over one CCtx, one CCtxParams object and one DCtx: set (38 compression + 7 decompression parameters x value grid {lo-1,lo,lo+1,0,default,hi-1,hi,hi+1,INT_MIN,INT_MAX,random in-bounds}), reset (3 directives), start / end frame, provoked error + session reset, simple-API call, apply CCtxParams; after EVERY op all 83 getters are snapshotted and the invariants evaluated; distinct = distinct plan signature; non-trivial = at least 4 ops',
         real=REAL_COMMON, stub=['parameter reference model: invariants I-a..I-d plus table rows transcribed from zstd.h (plain read-back, boolean normalisation, updatable-mid-frame list, sticky flags observed in frame headers via the independent frame walker)'],
         assumptions=['zstd.h: "Providing a value beyond bound will either clamp it, or trigger an error (depending on parameter)" - so an accepted out-of-bounds set is not a violation as long as the value read back is inside the bounds (I-a)', '0 is tolerated by I-a for every parameter (documented as default/auto for most)', 'no schedule or clock here: the family contributes refinement of an API history against an executable model'],
